@@ -7,7 +7,7 @@
    completions and peer GOAWAYs.  Arrivals are request stream ids (id mod 4 = 0) up to 2^62 - 8; the one
    remaining id 2^62 - 4 is the saturation boundary of `id + n + 1` and is refuted below.
    Client: [crun client0 h] over GOAWAY arrivals, driver polls and send_request calls. *)
-From H3V Require Import Base.Bytes Gen.GenGoaway Spec.GoawaySpec Model.Varint Model.Goaway
+From H3V Require Import Base.Bytes Gen.GenGoaway Spec.GoawaySpec Model.Varint Model.Goaway Model.GoawayWrite
   Proofs.GoawaySpecLemmas Proofs.GoawayProofs.
 
 (* T1: the identifiers of the GOAWAY frames on the wire never increase *)
@@ -75,6 +75,21 @@ Theorem C08_client_starts_nothing_after_goaway :
   forall s sid, r_limit s <> None -> ~ In (CReqOpened sid) (fst (rfc_client_step s KRequest)).
 Proof. exact rfc_no_request_after_goaway. Qed.
 
+(* the model with a control-stream write budget (Model/GoawayWrite.v: pending GOAWAY writes, suspended and resumed
+   shutdown()/accept() calls) IS the model above whenever the transport takes every write at once; histories with a
+   finite budget are covered by the correspondence run and the monitor only (no theorem) *)
+Theorem C08_unlimited_budget_is_base_model :
+  forall w o, ws_budget w = None -> ws_parked w = None ->
+    wstep w (WOp o) =
+      (map WE (fst (gstep (ws_g w) o)),
+       {| ws_g := snd (gstep (ws_g w) o); ws_budget := None; ws_inflight := None; ws_parked := None |}).
+Proof.
+  intros w o Hb Hp. unfold wstep. rewrite Hp, Hb.
+  destruct (gstep (ws_g w) o) as [outs g']. cbn [fst snd].
+  destruct (split_wire outs) as [[[pre id] post]|]; [|reflexivity].
+  cbn [ctl_flush]. change (0 =? 0) with true. reflexivity.
+Qed.
+
 (* the decision points the proofs rest on, as read from the source on this run *)
 Theorem C08_decision_points :
   (forall sent id, (reject_present && match sent with Some max_id => cmp_eval reject_cmp id max_id | None => false end)
@@ -82,7 +97,7 @@ Theorem C08_decision_points :
   (forall l n, shutdown_id (Some l) n = sid_add (sid_add l n) 1) /\
   (forall n, shutdown_id None n = sid_add 0 n) /\
   last_accepted_is_max = true /\ ongoing_insert = true /\ ongoing_insert_is_stream = true /\
-  store_before_write = true /\ closing_retest_after_open = true /\
+  store_before_write = true /\ shutdown_error_guard = true /\ closing_retest_after_open = true /\
   closing_retest_reset_code = Some rfc_H3_REQUEST_CANCELLED /\
   accept_none_shutdown = Some 0 /\ accept_none_only_if_unsent = false /\
   (forall s g, (guard_present && cmp_eval guard_cmp s g) = (s <=? g)) /\
@@ -117,6 +132,10 @@ Example C08_closing_inhabited :
   gtrace [Arrive 0; Poll; Shutdown 2; Complete 0; PeerGoaway 0; Poll] =
     [EArrive 0; EPoll; EShown 0; EShutdown 2; EWire 12; EComplete 0; EPeerGoaway 0; EPoll; EWire 4; ENone].
 Proof. vm_compute. reflexivity. Qed.
+Example C08_shutdown_after_error_inhabited :
+  gtrace [PeerGoaway 4; PeerGoaway 8; Poll; Shutdown 0] =
+    [EPeerGoaway 4; EPeerGoaway 8; EPoll; EErr 264; EShutdown 0; EErr 264].
+Proof. vm_compute. reflexivity. Qed.
 Example C08_client_inhabited :
   crun client0 [KRequest; KGoaway 8; KDrive; KRequest; KGoaway 12; KDrive] =
     [CRequest; CReqOpened 0; CGoaway 8; CDrive; CDriveIdle; CRequest; CReqClosing; CGoaway 12; CDrive; CDriveErr 264].
@@ -137,5 +156,6 @@ Print Assumptions C08_monitor_sound.
 Print Assumptions C08_monitor_complete.
 Print Assumptions C08_client_is_rfc.
 Print Assumptions C08_client_starts_nothing_after_goaway.
+Print Assumptions C08_unlimited_budget_is_base_model.
 Print Assumptions C08_decision_points.
 Print Assumptions C08_saturation_boundary_refuted.
